@@ -323,13 +323,17 @@ Definition multi_service {S} (h : handler S) (tr : transport) (cap : Z) (seq : o
                  rp_data := le_enc 2 n ++ offsets_of (2 + 2 * n) reps ++ concat reps |})
     end).
 
+(* envelope, fit to the transport, log the reply *)
+Definition finish_reply {S} (cap svc : Z) (p : tstate S * mr_reply) : tstate S * bytes :=
+  let '(st1, rp) := p in
+  let '(bs, evs) := fit cap svc (mr_bytes svc rp) in
+  (logs (evs ++ [EvReply (reply_status bs) (List.length bs)]) st1, bs).
+
 (* a message-router request -> the reply bytes, fitted to the transport, logged *)
 Definition dispatch {S} (h : handler S) (tr : transport) (cap : Z) (seq : option Z)
   (st : tstate S) (rq : mr_request) : tstate S * bytes :=
-  let '(st1, rp) := if is_multi_request rq then multi_service h tr cap seq st rq
-                    else dispatch_one h tr cap seq st rq in
-  let '(bs, evs) := fit cap (mr_service rq) (mr_bytes (mr_service rq) rp) in
-  (logs (evs ++ [EvReply (reply_status bs) (List.length bs)]) st1, bs).
+  finish_reply cap (mr_service rq)
+    (if is_multi_request rq then multi_service h tr cap seq st rq else dispatch_one h tr cap seq st rq).
 
 (* ================================================================ connection manager *)
 Definition rd (n : Z) (bs : bytes) : option (Z * bytes) :=
@@ -454,10 +458,7 @@ Definition ucsend_status (c : Z) : mr_reply :=
 (* a message-router request that arrived over SendRRData -> reply bytes *)
 Definition ucmm {S} (h : handler S) (session : Z) (st : tstate S) (rq : mr_request) : tstate S * bytes :=
   let svc := mr_service rq in
-  let finish (p : tstate S * mr_reply) :=
-    let '(st1, rp) := p in
-    let '(bs, evs) := fit UCMM_CAPACITY svc (mr_bytes svc rp) in
-    (logs (evs ++ [EvReply (reply_status bs) (List.length bs)]) st1, bs) in
+  let finish := finish_reply UCMM_CAPACITY svc in
   match path_cia (mr_path rq) with
   | Some (6, 1, None) =>
       if svc =? 82 then                                           (* 0x52 Unconnected Send *)
